@@ -263,3 +263,26 @@ Definition entry_ops (o : gopts) (now : Z) (w : work) : list fsop :=
 
 Definition receiver_session_ops (o : gopts) (now : Z) (ws : list work) : list fsop :=
   flat_map (entry_ops o now) ws ++ flat_map (fun w => touch_up_ops o (w_entry w) (w_after w)) ws.
+
+(** ** owner and group by name (internal/receiver/uidlist.go RecvIdList,
+    generatoruid.go setUid): the sender lists (id, name) pairs for the ids it
+    used; an id whose name exists locally is replaced by the local id of that
+    name, every other id is used as it is. *)
+Definition id_map := list (Z * Z).
+
+Fixpoint map_id (m : id_map) (id : Z) : Z :=
+  match m with
+  | [] => id
+  | (k, v) :: r => if k =? id then v else map_id r id
+  end.
+
+Section IdNames.
+  Variable lookup : list Z -> option Z.          (* user.Lookup / user.LookupGroup: name -> local id *)
+
+  Definition id_map_of (ids : list (Z * list Z)) : id_map :=
+    map (fun p => (fst p, match lookup (snd p) with Some l => l | None => fst p end)) ids.
+End IdNames.
+
+Definition localise (um gm : id_map) (e : fentry) : fentry :=
+  mkEntry (e_name e) (e_len e) (e_mtime e) (e_mode e) (map_id um (e_uid e)) (map_id gm (e_gid e))
+          (e_rdev e) (e_link e) (e_csum e).
